@@ -222,7 +222,7 @@ func (runInfo *runInfoStruct) runVarStmt(stmt *ast.VarStmt) {
 		if (value.Kind() == reflect.Slice || value.Kind() == reflect.Array) && value.Len() > 0 {
 			// value is slice/array, add each value to left side names
 			for i := 0; i < value.Len() && i < len(stmt.Names); i++ {
-				runInfo.env.DefineValue(stmt.Names[i], value.Index(i))
+				runInfo.env.DefineValue(stmt.Names[i], detach(value.Index(i)))
 			}
 			// return last value of slice/array
 			runInfo.rv = value.Index(value.Len() - 1)
@@ -232,7 +232,7 @@ func (runInfo *runInfoStruct) runVarStmt(stmt *ast.VarStmt) {
 
 	// define all names with right side values
 	for i = 0; i < len(rvs) && i < len(stmt.Names); i++ {
-		runInfo.env.DefineValue(stmt.Names[i], rvs[i])
+		runInfo.env.DefineValue(stmt.Names[i], detach(rvs[i]))
 	}
 
 	// return last right side value
@@ -526,7 +526,7 @@ func (runInfo *runInfoStruct) runForSliceStmt(stmt *ast.ForStmt, value reflect.V
 		if iv.Kind() == reflect.Ptr {
 			iv = iv.Elem()
 		}
-		runInfo.env.DefineValue(stmt.Vars[0], iv)
+		runInfo.env.DefineValue(stmt.Vars[0], detach(iv))
 
 		runInfo.stmt = stmt.Stmt
 		runInfo.runSingleStmt()
